@@ -142,7 +142,7 @@ func perNodeEvents(hh *h.Hist, g h.GroupSpec, cap int, taintValues []string) []h
 	var ev []h.Event
 	for _, n := range groupNodes(hh, g, cap) {
 		name := n.Name
-		ev = append(ev, evPodStart(g, name, 200), evPodFinish(g, name), evDaemonSet(g, name))
+		ev = append(ev, evPodStart(g, name, 200), evPodStartAffinity(g, name, 100), evPodFinish(g, name), evDaemonSet(g, name))
 		ev = append(ev, evCordon(name, !n.Spec.Unschedulable))
 		for _, v := range taintValues {
 			ev = append(ev, evExtTaint(name, v))
@@ -157,7 +157,7 @@ func perNodeEvents(hh *h.Hist, g h.GroupSpec, cap int, taintValues []string) []h
 	return ev
 }
 
-var c01TaintValues = []string{"now+0q", "now-1q", "now-3q", "now-5q", "now+10q", "abc", "", "12.5", "-5"}
+var c01TaintValues = []string{"now+0q", "now-1q", "now-3q", "now-5q", "now+10q", "abc", "", "12.5", "-5", "0x5f5e100", "1_000"}
 
 // C01Scenarios returns the scenarios of the C01 check for a tier.
 func C01Scenarios(tier string) []*h.Scenario {
